@@ -105,6 +105,8 @@ def r02_1(ctx, m):
                 break
             y = ys[0].node.value.value
             callee = repo.resolve_call(g, y) if isinstance(y, ast.Call) else None
+            if isinstance(y, ast.Call) and callee is None and isinstance(y.func, ast.Name) and y.func.id not in g.module.funcs and y.func.id not in g.module.imports:
+                raise AnalysisError("R02.1", g.where(loop), f"the converter applied to each record is `{y.func.id}`, a callable chosen at run time (a parameter or local): which converter it is, is not traced")
             if callee is None or callee.qualname not in conv_funcs or norm(y.args[0]) != norm(loop.target):
                 bad = (p, f"yields `{norm(y)}`, not the conversion of the current record")
                 break
@@ -174,6 +176,8 @@ def r02_2(ctx, m):
                     break
             ctx.check(bad is None and len(cols) == 12, "R02.2", f.where(st), "columns 1-4 and 10-12 are the parsed columns of the same record, nothing is appended but the parsed fields", key_of(f, f"untouched:{bad}:{len(cols)}"), **({"column": bad[0], "found": bad[1]} if bad else {}), columns=len(cols))
             reps = [x for x in parts if x[0] == "rep"]
+            if not reps and emit.has_unlinked_tag_loop(f, rec, m.extras["tags_attr"], var):
+                raise AnalysisError("R02.2", f.where(st), "the function iterates the record's optional fields, but not into the string this rule follows: how they reach the output is not traced")
             ctx.check(len(reps) == 1 and parts[-1] is reps[0], "R02.2", f.where(st), "the record ends with exactly one repetition over the parsed optional fields", key_of(f, f"tag-rep:{len(reps)}"))
         # record attributes other than strand/tags are never assigned
         stores = [s for s in walk_own(f.node) if isinstance(s, (ast.Assign, ast.AugAssign)) and any(isinstance(t, ast.Attribute) and norm(t.value) == rec and t.attr not in ("strand",) for t in (s.targets if isinstance(s, ast.Assign) else [s.target]))]
